@@ -5,13 +5,14 @@ CONSTANTS
   DetailNames <- NamesAll
   Mismatches = {"m1", "m2"}
   Attrs = {"a_exist", "a_missing", "a_none"}
-  Fixtures = {"f_ok", "f_tb", "f_two", "f_bad", "f_cr"}
+  Fixtures = {"f_ok", "f_tb", "f_two", "f_bad", "f_cr", "f_gr"}
   MaxFaults = 1
   MaxSteps = 2
   MaxTotalSteps = 2
   MaxRuns = 1
   AllowDecor = FALSE
   OnExcChoices = {FALSE}
+  PreForceChoices = {FALSE}
   StepOps = {"addCleanup", "addDetail", "expect", "patch", "useFixture"}
   AllowMulti = FALSE
   Variant = "asRequired"
@@ -20,6 +21,7 @@ CONSTANTS
   CleanOf <- MCCleanOf
   FixtureSetUpFails <- MCFixtureSetUpFails
   FixtureCleanKind <- MCFixtureCleanKind
+  FixtureGatherRaises <- MCFixtureGatherRaises
   FixtureDetails <- MCFixtureDetails
   MismatchDetails <- MCMismatchDetails
 INVARIANT Bracketed
